@@ -72,7 +72,7 @@ func runTwin(proxyAddr string, tl net.Listener, size int, seed uint64, T time.Du
 	br := bufio.NewReader(conn)
 	res, err := http.ReadResponse(br, &http.Request{Method: "CONNECT"})
 	if err != nil || res.StatusCode != 200 {
-		return kit.Failf("C04/twin/direct/timeout-no-200", "second tunnel: %v %v", res, err)
+		return kit.Failf("C04/twin/any/timeout-no-200", "second tunnel: %v %v", res, err)
 	}
 	type acc struct {
 		c   net.Conn
@@ -88,24 +88,38 @@ func runTwin(proxyAddr string, tl net.Listener, size int, seed uint64, T time.Du
 	}()
 	a := <-ch
 	if a.err != nil {
-		return kit.Failf("C04/twin/direct/timeout-target-not-contacted", "second tunnel: %v", a.err)
+		return kit.Failf("C04/twin/any/timeout-target-not-contacted", "second tunnel: %v", a.err)
 	}
 	tc := a.c
 	defer tc.Close()
 	tc.SetDeadline(time.Now().Add(30*time.Second + 4*T))
 	var wg sync.WaitGroup
 	var gotUp, gotDown []byte
+	// two messages each way with a gap: state that is torn away from this
+	// tunnel in between (by the other tunnel's setup) shows on the second one
 	wg.Add(4)
-	go func() { defer wg.Done(); conn.Write(up); halfClose(conn) }()
-	go func() { defer wg.Done(); tc.Write(down); halfClose(tc) }()
+	go func() {
+		defer wg.Done()
+		conn.Write(up[:len(up)/2])
+		time.Sleep(15 * time.Millisecond)
+		conn.Write(up[len(up)/2:])
+		halfClose(conn)
+	}()
+	go func() {
+		defer wg.Done()
+		tc.Write(down[:len(down)/2])
+		time.Sleep(15 * time.Millisecond)
+		tc.Write(down[len(down)/2:])
+		halfClose(tc)
+	}()
 	go func() { defer wg.Done(); gotUp, _ = io.ReadAll(tc) }()
 	go func() { defer wg.Done(); gotDown, _ = io.ReadAll(br) }()
 	wg.Wait()
 	if !bytes.Equal(gotUp, up) {
-		v.Addf("C04/twin/direct/client-to-target-bytes-differ", "second concurrent tunnel: %s", kit.Diff(up, gotUp))
+		v.Addf("C04/twin/any/client-to-target-bytes-differ", "second concurrent tunnel: %s", kit.Diff(up, gotUp))
 	}
 	if !bytes.Equal(gotDown, down) {
-		v.Addf("C04/twin/direct/target-to-client-bytes-differ", "second concurrent tunnel: %s", kit.Diff(down, gotDown))
+		v.Addf("C04/twin/any/target-to-client-bytes-differ", "second concurrent tunnel: %s", kit.Diff(down, gotDown))
 	}
 	return v
 }
@@ -204,7 +218,7 @@ func halfClose(c net.Conn) {
 }
 
 // downstream is a minimal well-behaved CONNECT proxy.
-func downstream(l net.Listener, targetAddr string, coalesce int) {
+func downstream(l net.Listener, targetAddr string, coalesce int, routes ...func(host string) string) {
 	for {
 		c, err := l.Accept()
 		if err != nil {
@@ -217,16 +231,26 @@ func downstream(l net.Listener, targetAddr string, coalesce int) {
 			if err != nil || req.Method != "CONNECT" {
 				return
 			}
-			t, err := net.DialTimeout("tcp", targetAddr, 5*time.Second)
+			to := targetAddr
+			for _, r := range routes {
+				if a := r(req.Host); a != "" {
+					to = a
+				}
+			}
+			co := coalesce
+			if to != targetAddr {
+				co = 0
+			}
+			t, err := net.DialTimeout("tcp", to, 5*time.Second)
 			if err != nil {
 				c.Write([]byte("HTTP/1.1 502 Bad Gateway\r\nContent-Length: 0\r\n\r\n"))
 				return
 			}
 			defer t.Close()
 			head := []byte("HTTP/1.1 200 Connection established\r\n\r\n")
-			if coalesce > 0 {
+			if co > 0 {
 				// wait for the first target bytes and send them with the 200
-				buf := make([]byte, coalesce)
+				buf := make([]byte, co)
 				t.SetReadDeadline(time.Now().Add(2 * time.Second))
 				n, _ := io.ReadFull(t, buf)
 				t.SetReadDeadline(time.Time{})
@@ -303,8 +327,6 @@ func runOnce(c Case, T time.Duration) (v kit.Verdict) {
 		return kit.Failf("C04/harness/listen", "%v", err)
 	}
 	defer dl.Close()
-	go downstream(dl, tl.Addr().String(), targetEarly)
-
 	var twinL net.Listener
 	if c.Twin {
 		if twinL, err = netkit.Listen(); err != nil {
@@ -312,6 +334,13 @@ func runOnce(c Case, T time.Duration) (v kit.Verdict) {
 		}
 		defer twinL.Close()
 	}
+	go downstream(dl, tl.Addr().String(), targetEarly, func(host string) string {
+		if twinL != nil && strings.HasPrefix(host, "twin.test") {
+			return twinL.Addr().String()
+		}
+		return ""
+	})
+
 	dialer := &netkit.Dialer{Route: func(addr string) string {
 		switch {
 		case strings.HasPrefix(addr, "twin.test") && twinL != nil:
@@ -351,13 +380,22 @@ func runOnce(c Case, T time.Duration) (v kit.Verdict) {
 		case tv := <-twinDone:
 			v = append(v, tv...)
 		case <-time.After(40*time.Second + 8*T):
-			v.Addf("C04/twin/direct/timeout-second-tunnel-stuck", "the second concurrent tunnel did not finish")
+			v.Addf("C04/twin/any/timeout-second-tunnel-stuck", "the second concurrent tunnel did not finish")
 		}
 	}
+	startTwin := func() {
+		if c.Twin {
+			go func() { twinDone <- runTwin(pr.Addr, twinL, c.TwinSize, c.TwinSeed, T) }()
+		}
+	}
+	twinStarted := false
 	if c.Twin {
-		go func() { twinDone <- runTwin(pr.Addr, twinL, c.TwinSize, c.TwinSeed, T) }()
 		// on every way out the second tunnel is finished before the proxy is stopped
-		defer collectTwin()
+		defer func() {
+			if twinStarted {
+				collectTwin()
+			}
+		}()
 	}
 	conn, err := net.DialTimeout("tcp", pr.Addr, 5*time.Second)
 	if err != nil {
@@ -415,6 +453,13 @@ func runOnce(c Case, T time.Duration) (v kit.Verdict) {
 		return kit.Failf("C04/connect/"+sh+"/timeout-target-not-contacted", "200 received but the target saw no connection within %v", T)
 	}
 	defer tc.Close()
+
+	// the second tunnel is set up while this one is established and about to carry traffic
+	startTwin()
+	twinStarted = c.Twin
+	if c.Twin {
+		time.Sleep(2 * time.Millisecond)
+	}
 
 	clientIn := collect(br) // what the client receives
 	targetIn := collect(tc) // what the target receives
@@ -549,7 +594,9 @@ func runOnce(c Case, T time.Duration) (v kit.Verdict) {
 		v.Addf("C04/transfer/"+sh+"/target-to-client-bytes-differ-at-end", "%s", kit.Diff(t2c, got))
 	}
 	// release: the handler must finish, so Close returns
-	collectTwin()
+	if twinStarted {
+		collectTwin()
+	}
 	stopped = true
 	if !pr.Stop(T) {
 		v.Addf("C04/release/"+strings.TrimSuffix(c.Closer, "-early")+"/proxy-not-released-timeout", "both directions have ended (%s) but Proxy.Close() did not return within %v: the tunnel handler is still running", c.Closer, T)
@@ -609,7 +656,7 @@ func genCase(t *rapid.T) Case {
 	if c.Route == "direct" && rapid.IntRange(0, 14).Draw(t, "unreachable") == 0 {
 		c.Unreachable = true
 	}
-	if c.Route == "direct" && !c.Unreachable && rapid.IntRange(0, 3).Draw(t, "twin") == 0 {
+	if !c.Unreachable && rapid.IntRange(0, 2).Draw(t, "twin") == 0 {
 		c.Twin = true
 		c.TwinSize = rapid.SampledFrom([]int{1, 4096, 32768, 32769, 100000, 300000}).Draw(t, "twin_size")
 		c.TwinSeed = rapid.Uint64Range(1, 1<<20).Draw(t, "twin_seed")
